@@ -46,8 +46,15 @@ enum Pos {
     MapOfSeqs,
     SeqOfVariants,
     SeqOfOptions,
+    /// key of a mapping written in flow style (`{key: 1, z: 2}`)
+    FlowMapKey,
 }
-const POS_ALL: [Pos; 14] = [
+impl Pos {
+    fn is_key(self) -> bool {
+        matches!(self, Pos::MapKey | Pos::FlowMapKey)
+    }
+}
+const POS_ALL: [Pos; 15] = [
     Pos::Root,
     Pos::SeqItem,
     Pos::MapValue,
@@ -62,6 +69,7 @@ const POS_ALL: [Pos; 14] = [
     Pos::MapOfSeqs,
     Pos::SeqOfVariants,
     Pos::SeqOfOptions,
+    Pos::FlowMapKey,
 ];
 
 #[derive(Clone, Debug, Serialize, Deserialize)]
@@ -217,6 +225,12 @@ where
                 rt1(&KeyMap(vec![(v, 1), (second, 2)]), o)
             }
         }
+        Pos::FlowMapKey => {
+            let km = if v.same(&second) { KeyMap(vec![(v, 1)]) } else { KeyMap(vec![(v, 1), (second, 2)]) };
+            let text = emit(&serde_saphyr::FlowMap(&km), o)?;
+            back(&text, &km)?;
+            Ok(text)
+        }
         Pos::FlowSeqItem => {
             let w = vec![v.clone(), second, v];
             let text = emit(&serde_saphyr::FlowSeq(&w), o)?;
@@ -332,7 +346,7 @@ fn check_string(s: &str, pos: Pos, o: &SerOpts) -> Result<(), String> {
             kv(want.clone(), z)
         }
         Pos::StructField => U::Map(vec![(U::s("first"), want.clone()), (U::s("second"), z)]),
-        Pos::MapKey => {
+        Pos::MapKey | Pos::FlowMapKey => {
             if s == "z" {
                 U::Map(vec![(want.clone(), U::Int(1))])
             } else {
@@ -395,13 +409,13 @@ fn check_case(c: &Case) -> Result<(), String> {
         Val::Bool(v) => rt(*v, !*v, c.pos, o).map(|_| ()),
         Val::Char(v) => rt(*v, 'z', c.pos, o).map(|_| ()),
         Val::Unit => {
-            if c.pos == Pos::MapKey || c.pos == Pos::SeqOfOptions {
+            if c.pos.is_key() || c.pos == Pos::SeqOfOptions {
                 return Ok(());
             }
             rt((), (), c.pos, o).map(|_| ())
         }
         Val::NoneStr => {
-            if c.pos == Pos::MapKey || c.pos == Pos::SeqOfOptions {
+            if c.pos.is_key() || c.pos == Pos::SeqOfOptions {
                 return Ok(());
             }
             rt(None::<String>, Some("z".to_string()), c.pos, o).map(|_| ())
@@ -413,13 +427,13 @@ fn check_case(c: &Case) -> Result<(), String> {
             // as a mapping key next to the sibling key `None`: `"null"` / `"~"` / `""` and `null`
             // are one key node for the reader (style is not part of a key, C04) - not a document
             // of the domain
-            if c.pos == Pos::MapKey && (s.is_empty() || s == "~" || s.eq_ignore_ascii_case("null")) {
+            if c.pos.is_key() && (s.is_empty() || s == "~" || s.eq_ignore_ascii_case("null")) {
                 return Ok(());
             }
             rt(Some(s.clone()), None::<String>, c.pos, o).map(|_| ())
         }
         Val::Bytes(b) => {
-            if c.pos == Pos::MapKey {
+            if c.pos.is_key() {
                 return Ok(());
             }
             rt(serde_bytes::ByteBuf::from(b.clone()), serde_bytes::ByteBuf::from(vec![1u8]), c.pos, o).map(|_| ())
@@ -711,7 +725,7 @@ impl Property for C12 {
         let mut idx = 0u64;
         for &b in &f32_special {
             for &pos in POS_ALL.iter() {
-                if pos == Pos::MapKey {
+                if pos.is_key() {
                     continue;
                 }
                 for o in fam.iter() {
@@ -745,7 +759,7 @@ impl Property for C12 {
         let mut idx = 0u64;
         for &b in &f64_special {
             for &pos in POS_ALL.iter() {
-                if pos == Pos::MapKey {
+                if pos.is_key() {
                     continue;
                 }
                 for o in fam.iter() {
@@ -758,7 +772,7 @@ impl Property for C12 {
                 }
             }
         }
-        let fpos = prop::sample::select(POS_ALL.iter().copied().filter(|p| *p != Pos::MapKey).collect::<Vec<_>>());
+        let fpos = prop::sample::select(POS_ALL.iter().copied().filter(|p| !p.is_key()).collect::<Vec<_>>());
         let strat = (any::<u64>(), fpos.clone(), opt_s.clone()).prop_map(|(b, pos, opts)| Case { val: Val::F64(b), pos, opts });
         ctx.run_strategy("f64-random-bits", 5, ctx.tier.pick(600_000, 12_000_000), &strat, nontrivial);
         // "short" decimals: values like 0.1, 1e21, 123456.789 whose shortest repr is short
@@ -855,7 +869,7 @@ impl Property for C12 {
 
         // --- byte arrays ------------------------------------------------------------------------
         let mut idx = 0u64;
-        let bpos: Vec<Pos> = POS_ALL.iter().copied().filter(|p| *p != Pos::MapKey).collect();
+        let bpos: Vec<Pos> = POS_ALL.iter().copied().filter(|p| !p.is_key()).collect();
         let mut arrays: Vec<Vec<u8>> = vec![vec![]];
         for a in 0..=255u8 {
             arrays.push(vec![a]);
